@@ -393,6 +393,20 @@ func c18err(err error) string {
 	return "err:" + err.Error()
 }
 
+// c18histBuf: nil for every second history (by a checksum of its text), otherwise a buffer of 512 bytes that holds 5
+func c18histBuf(input string) *inspector.ByteBuffer {
+	h := 0
+	for i := 0; i < len(input); i++ {
+		h = (h*31 + int(input[i])) & 0xffff
+	}
+	if h%2 == 0 {
+		return nil
+	}
+	b := inspector.NewByteBuffer(512)
+	b.Bufferize([]byte("head:"))
+	return b
+}
+
 // ---------------------------------------------------------------- the run
 func runC18(input string) string {
 	parts := strings.Split(input, ";")
@@ -402,6 +416,16 @@ func runC18(input string) string {
 	state := c18value(parts[0])
 	var ins inspector.StringAnyMapInspector
 	var obs []string
+	// every second history hands ONE caller-owned buffer - already holding bytes, with spare capacity - to all its Set
+	// calls (SetWithBuffer); the others use Set (a fresh buffer per call).  The model's tree after every step is the same:
+	// what an earlier step stored must survive the later ones whichever way the texts are buffered.
+	hbuf := c18histBuf(input)
+	set := func(dst, val any, path ...string) error {
+		if hbuf != nil {
+			return ins.SetWithBuffer(dst, val, hbuf, path...)
+		}
+		return ins.Set(dst, val, path...)
+	}
 	for _, o := range parts[1:] {
 		f := strings.Split(o, "!")
 		switch f[0] {
@@ -419,7 +443,7 @@ func runC18(input string) string {
 		case "S":
 			path := c18path(f[1])
 			val := c18value(f[2])
-			err := ins.Set(state, val, path...)
+			err := set(state, val, path...)
 			s := c18err(err) + ";" + c18print(state)
 			if err == nil && len(path) > 0 {
 				sh := "?"
@@ -563,6 +587,13 @@ func runC18Share(parts []string) string {
 	}
 	var ins inspector.StringAnyMapInspector
 	var obs, prev []string
+	hbuf := c18histBuf(strings.Join(parts, ";"))
+	set := func(dst, val any, path ...string) error {
+		if hbuf != nil {
+			return ins.SetWithBuffer(dst, val, hbuf, path...)
+		}
+		return ins.Set(dst, val, path...)
+	}
 	idx := func(s string) int {
 		n, err := strconv.Atoi(s)
 		if err != nil || n < 0 || n >= len(hs) {
@@ -593,7 +624,7 @@ func runC18Share(parts []string) string {
 			} else {
 				val = c18value(f[3])
 			}
-			res = c18err(ins.Set(hs[idx(f[1])], val, c18path(f[2])...))
+			res = c18err(set(hs[idx(f[1])], val, c18path(f[2])...))
 		case "l":
 			res = c18length(ins, hs[idx(f[1])], c18path(f[2]))
 		case "r":
